@@ -45,6 +45,9 @@ CHECKS.update({
  "C13": ("exploration", "runtime monitor: differential between the four mode combinations of the real parser + generated-tree oracle for tolerant recovery and smart-semicolon cuts (acorn confirms the ';'-separated variant)",
          "(a) strict-accepted => tolerant tree DeepEqual, no errors; (b) fused statements / cut closing braces => tolerant keeps every statement; (c) no line-leading '(' '[' => smart == default incl. on malformed inputs; (d) line-separated statements starting with '(' '[' => smart yields the generated tree.",
          "'(' / '[' first on a line inside an expression is only run for totality (statement speaks of statements).", "5/C13"),
+ "C14": ("exploration", "Go race detector (worker built with -race, GOMAXPROCS=16) over concurrent job rounds, shared-tree, shared-builder/compiler rounds + solo-process reference results + snapshots of package tables and trees",
+         "Every job's result is compared with the result of the same job run alone in a fresh process; 16 goroutines run jobs with conflicting plugin/operator configurations concurrently, compile one shared tree, build from one builder; sequential histories reuse builders and recompile trees under all 42 configurations in random orders. Any DATA RACE report in xjs between independent instances or on a shared tree is a violation (deduplicated by the pair of xjs functions).",
+         "The scheduler picks the interleavings; the race detector needs both accesses to happen in the run. Races while ONE builder/compiler value is used concurrently are recorded, judged only with a differing result.", "5/C14"),
  "C15": ("exploration", "runtime monitor: renderer ground truth of comment placement + reference tokenization of pretty/compact output + differential against the undecorated program",
          "Programs decorated at statement-list gaps with // comments of 11 hostile payload kinds and blank runs; every comment once, verbatim, in order, before the same token; blank separation kept; compact output comment-free and byte-identical to the comment-free program's.",
          "Statement-level comments only; text compared up to trailing blanks.", "5/C15"),
